@@ -3,7 +3,7 @@
    (ZV.Gen.Gen_Bounds).  Only `exact lemma` here; proofs are in Params/ParamProofs.v (and CParamsAdjustProofs.v). *)
 From Coq Require Import ZArith List Bool.
 From ZV.Gen Require Import Gen_Bounds.
-From ZV.Params Require Import BoundsModel CParamsAdjust CParamsAdjustProofs ParamModel ParamProofs ParamProofs2 SessionModel SessionProofs.
+From ZV.Params Require Import BoundsModel CParamsAdjust CParamsAdjustProofs ParamModel ParamProofs ParamProofs2 ParamProofs3 SessionModel SessionProofs InitModel InitProofs.
 Import ListNotations.
 Local Open Scope Z_scope.
 
@@ -85,7 +85,16 @@ Theorem frames_reflect_parameters : forall ops w o,
 Proof. exact frames_reflect_parameters_l. Qed.
 Print Assumptions frames_reflect_parameters.
 
-Theorem simple_api_ignores_parameters : forall w o, step w (OCSimple o) = (w, (Ok, [0; 1; 0; 0])).
+(* round 3: since fix 38ec6ea the single-call function closes a streaming session left open (stage = init); everything else
+   - requested parameters, attached dictionary, every other object - is untouched, and in the init stage the world is the same *)
+Theorem simple_api_ignores_parameters : forall w o,
+  let w' := fst (step w (OCSimple o)) in
+  snd (step w (OCSimple o)) = (Ok, [0; 1; 0; 0])
+  /\ c_params (get_c w' o) = c_params (get_c w o) /\ c_dict (get_c w' o) = c_dict (get_c w o)
+  /\ c_static (get_c w' o) = c_static (get_c w o)
+  /\ c_stage (get_c w' o) = S_init
+  /\ get_c w' (negb o) = get_c w (negb o) /\ w_p w' = w_p w /\ w_d0 w' = w_d0 w /\ w_d1 w' = w_d1 w
+  /\ (c_stage (get_c w o) = S_init -> w' = w).
 Proof. exact simple_api_ignores_parameters_l. Qed.
 Print Assumptions simple_api_ignores_parameters.
 
@@ -197,7 +206,7 @@ Print Assumptions d_midframe_all_refused.
 
 Theorem d_reset_parameters_restores_defaults : forall d dir,
   is_params dir = true -> (d_stage d = S_init \/ is_session dir = true) ->
-  dctx_reset d dir = (mkD 0 (2 ^ z_ZSTD_WINDOWLOG_LIMIT_DEFAULT + 1) 0 0 0 0 0 S_init (dd_clear (d_dict d)) (d_static d), Ok)
+  dctx_reset d dir = (mkD 0 (2 ^ z_ZSTD_WINDOWLOG_LIMIT_DEFAULT + 1) 0 0 0 0 0 S_init (dd_drop (d_dict d)) (d_static d), Ok)
   /\ dctx_get_p (fst (dctx_reset d dir)) D_windowLogMax = z_ZSTD_WINDOWLOG_LIMIT_DEFAULT.
 Proof. exact d_reset_parameters_restores_defaults_l. Qed.
 Print Assumptions d_reset_parameters_restores_defaults.
@@ -447,7 +456,7 @@ Theorem d_reset_dict_rules : forall d dir,
   (is_session dir = true -> is_params dir = false -> d_dict (fst (dctx_reset d dir)) = d_dict d)
   /\ (is_params dir = true -> (d_stage d = S_init \/ is_session dir = true) ->
       dd_kind (d_dict (fst (dctx_reset d dir))) = DK_none /\ dd_uses (d_dict (fst (dctx_reset d dir))) = 0
-      /\ dd_set (d_dict (fst (dctx_reset d dir))) = dd_set (d_dict d)).
+      /\ dd_set (d_dict (fst (dctx_reset d dir))) = None).      (* round 3, fix b70602d: the DDict set is dropped too *)
 Proof. exact d_reset_dict_rules_l. Qed.
 Print Assumptions d_reset_dict_rules.
 
@@ -753,3 +762,99 @@ Theorem x_sticky_across_frames : forall ops w o,
   Forall (fun x => xtouches_cparams o x = false) ops -> c_params (xget_c (xrun w ops) o) = c_params (xget_c w o).
 Proof. exact x_sticky_across_frames_l. Qed.
 Print Assumptions x_sticky_across_frames.
+
+(* ================================================================== round 3 ================================================================== *)
+(* ---- a parameter reset drops every referenced DDict, for ever (finding C16-ddictset-survives-parameter-reset, fix b70602d) ---- *)
+Theorem d_forgot_history : forall ops w o k,
+  Forall (fun x => d_refs o k x = false) ops -> d_forgot (get_d w o) k -> d_forgot (get_d (run w ops) o) k.
+Proof. exact d_forgot_history_l. Qed.
+Print Assumptions d_forgot_history.
+
+Theorem d_forgot_never_used : forall d k, d_forgot d k ->
+  (forall fmt fid, snd (dd_stream_header false d fmt fid) <> DK_ref k)
+  /\ snd (dd_get (d_dict d)) <> DK_ref k
+  /\ (forall fid, dd_switched (Z.eqb (d_refMultipleDDicts d) 1) (d_dict d) fid = true -> fid <> k).
+Proof. exact d_forgot_never_used_l. Qed.
+Print Assumptions d_forgot_never_used.
+
+Theorem d_param_reset_forgets : forall w o dir ops k,
+  is_params dir = true -> (d_stage (get_d w o) = S_init \/ is_session dir = true) ->
+  Forall (fun x => d_refs o k x = false) ops ->
+  let d := get_d (run (fst (step w (ODReset o dir))) ops) o in
+  d_forgot d k /\ (forall fmt fid, snd (dd_stream_header false d fmt fid) <> DK_ref k) /\ snd (dd_get (d_dict d)) <> DK_ref k.
+Proof. exact d_param_reset_forgets_l. Qed.
+Print Assumptions d_param_reset_forgets.
+
+Theorem ddictset_survived_reset_refuted :
+  snd (dctx_dec_oneshot (r3_after_reset dctx_reset_keepset) [1]) = Ok
+  /\ snd (dctx_dec_stream (r3_after_reset dctx_reset_keepset) 1) = Ok
+  /\ snd (dctx_dec_oneshot (r3_after_reset dctx_reset) [1]) <> Ok
+  /\ snd (dctx_dec_stream (r3_after_reset dctx_reset) 1) <> Ok
+  /\ d_forgot (r3_after_reset dctx_reset) 1.
+Proof. exact ddictset_survived_reset_refuted_l. Qed.
+Print Assumptions ddictset_survived_reset_refuted.
+
+(* ---- ZSTD_decompress_usingDict with raw dictionary bytes (finding C16-refmulti-select-bypasses-dictid-check, fix 9260ac3) ---- *)
+Theorem dictid_check_sound : forall sw loaded fid, dd_id_check false sw loaded fid = true -> fid = 0 \/ loaded = fid.
+Proof. exact dd_id_check_sound. Qed.
+Print Assumptions dictid_check_sound.
+
+Theorem d_rawdict_verdict : forall d k f, d_format d = 0 ->
+  snd (dctx_dec_raw d k f) = (if dkind_matches (if k =? 0 then DK_none else DK_local k) f then Ok else Err E_other)
+  /\ dsame d (fst (dctx_dec_raw d k f)) /\ d_stage (fst (dctx_dec_raw d k f)) = S_init.
+Proof. exact d_rawdict_verdict_l. Qed.
+Print Assumptions d_rawdict_verdict.
+
+Theorem select_vouched_for_loaded_dict_refuted :
+  dd_id_check true (dd_switched true (d_dict r3_multi1) 1) 2 1 = true
+  /\ dd_id_check false (dd_switched true (d_dict r3_multi1) 1) 2 1 = false
+  /\ snd (dctx_dec_raw r3_multi1 2 1) <> Ok /\ snd (dctx_dec_raw r3_multi1 1 1) = Ok.
+Proof. exact select_vouched_for_loaded_dict_refuted_l. Qed.
+Print Assumptions select_vouched_for_loaded_dict_refuted.
+
+(* ---- the deprecated stream initialisers (InitModel.v): ZSTD_initCStream* / ZSTD_resetCStream ---- *)
+Theorem init_chain_leaves_init_stage : forall w o y l, init_chain o y = Some l ->
+  fst (ystep w y) = fst (xseq w (reset_session o :: l)) /\ c_stage (xget_c (fst (ystep w y)) o) = S_init.
+Proof. exact init_chain_leaves_init_stage_l. Qed.
+Print Assumptions init_chain_leaves_init_stage.
+
+Theorem init_cstream_exact : forall w o level,
+  let c := xget_c w o in
+  let c0 := mkC (c_params c) S_init CD_none (c_static c) in
+  vw (fst (ystep w (YInit o level))) o = (fst (cctx_set c0 (cparam_id C_compressionLevel) level), 0)
+  /\ fst (snd (ystep w (YInit o level))) = snd (cctx_set c0 (cparam_id C_compressionLevel) level).
+Proof. exact init_cstream_exact_l. Qed.
+Print Assumptions init_cstream_exact.
+
+Theorem init_cstream_sticky : forall w o level,
+  let c := xget_c w o in
+  let c' := xget_c (fst (ystep w (YInit o level))) o in
+  (forall q, q <> C_compressionLevel -> c_params c' q = c_params c q)
+  /\ c_stage c' = S_init /\ c_dict c' = CD_none /\ c_static c' = c_static c
+  /\ s_pledge (get_s (fst (ystep w (YInit o level))) o) = 0.
+Proof. exact init_cstream_sticky_l. Qed.
+Print Assumptions init_cstream_sticky.
+
+Theorem init_advanced_refused : forall w o k cp fp pss, check_cparams cp = false ->
+  let c := xget_c w o in
+  vw (fst (ystep w (YInitAdv o k cp fp pss))) o = (mkC (c_params c) S_init (c_dict c) (c_static c), u64 (adv_pledged fp pss + 1))
+  /\ fst (snd (ystep w (YInitAdv o k cp fp pss))) = Err E_outOfBound.
+Proof. exact init_advanced_refused_l. Qed.
+Print Assumptions init_advanced_refused.
+
+Theorem init_advanced_accepted : forall w o k cp fp pss, check_cparams cp = true ->
+  let c := xget_c w o in
+  let c1 := mkC (store_zstd_params (c_params c) cp fp) S_init (c_dict c) (c_static c) in
+  vw (fst (ystep w (YInitAdv o k cp fp pss))) o = (fst (cctx_load c1 k), u64 (adv_pledged fp pss + 1))
+  /\ fst (snd (ystep w (YInitAdv o k cp fp pss))) = snd (cctx_load c1 k).
+Proof. exact init_advanced_accepted_l. Qed.
+Print Assumptions init_advanced_accepted.
+
+Theorem init_advanced_vs_documented_setParams : forall c cp fp, c_stage c = S_init -> check_cparams cp = true ->
+  flag01 (f_cs fp) -> flag01 (f_ck fp) -> flag01 (f_nd fp) ->
+  snd (cctx_set_params c cp fp) = Ok
+  /\ (forall q, q <> C_compressionLevel -> store_zstd_params (c_params c) cp fp q = c_params (fst (cctx_set_params c cp fp)) q)
+  /\ c_params (fst (cctx_set_params c cp fp)) C_compressionLevel = c_params c C_compressionLevel
+  /\ store_zstd_params (c_params c) cp fp C_compressionLevel = 0.
+Proof. exact store_vs_setparams_l. Qed.
+Print Assumptions init_advanced_vs_documented_setParams.
